@@ -211,8 +211,11 @@ CHECKS['C01'] = dict(
 
 CHECKS['C02'] = dict(
     text="Asp/Agg.v + Asp/AggProofs.v: values of #count/#sum/#max/#min over SETS of tuples with #inf/#sup; C02_value_over_distinct_tuples (any two "
-         "enumerations of the same set of tuples give the same value, all four functions, lists of any length) and C02_negated_symbol_complement "
-         "(also at #inf/#sup). Cnl/Aggregate.v: the seven aggregate sentence forms over a two-concept one-relation vocabulary, their READING, the "
+         "enumerations of the same set of tuples give the same value, all four functions, lists of any length), C02_negated_symbol_complement "
+         "(also at #inf/#sup), and C02_comparison_*_partial (Cnl/AggregateProofs.v): for every phrase of the grammar / between with numeric or "
+         "aggregate bounds / aggregate-vs-aggregate, both polarities and EVERY value of the aggregates, the comparison literals emitted through the "
+         "regenerated tables and convert_operation's three aggregate paths hold exactly when the named comparison holds (prohibited) / fails "
+         "(required). Not proved: that the emitted aggregate term evaluates to the reading's count/sum/max/min (partial). Cnl/Aggregate.v: the seven aggregate sentence forms over a two-concept one-relation vocabulary, their READING, the "
          "compile model (the emitted rule, using the generated operator / phrase / negation / between tables and Cnl/Comparison.v) and the semantics "
          "of the emitted rule. Tie: the compile model must print the implementation's constraint modulo renaming of variables by first occurrence; "
          "oracle: for every generated specification ALL 2^(n*m) interpretations are evaluated in Coq: reading = membership in clingo's answer sets of "
@@ -227,8 +230,10 @@ CHECKS['C04'] = dict(
          "is maximized, as little / as much as possible} x {low, medium, high, priority N}; the READING (an interpretation is optimal iff it satisfies "
          "the hard part and no other one is lexicographically better by priority on the stated quantities); the compile model (weak constraints: body, "
          "sign, weight, level, tuple - from the generated PRIORITY_LEVEL / direction tables) and gringo/clasp's semantics of the emitted weak "
-         "constraints (sets of (weight, tuple) per level, lexicographic by level). Theorems over the regenerated tables: C04_levels_ordered, "
-         "C04_direction_signs, C04_as_much_as_possible_refuted (known finding). Tie: the model prints the implementation's weak constraints modulo "
+         "constraints (sets of (weight, tuple) per level, lexicographic by level). Theorems: C04_levels_ordered, C04_direction_signs, "
+         "C04_as_much_as_possible_refuted (known finding) over the regenerated tables; C04_cost_is_quantity_partial and C04_optimal_partial: for the "
+         "forms without an aggregate, any rooms/shelves/candidate space and any number of preferences with pairwise distinct priorities, optimality "
+         "by the emitted weak constraints IS optimality by the reading (the two aggregate forms are covered by the oracle only: partial). Tie: the model prints the implementation's weak constraints modulo "
          "renaming of variables; oracle: clingo --opt-mode=optN (optimality proven) on the IMPLEMENTATION's program versus the reading and versus the "
          "model's weak-constraint semantics, exhaustively over all 2^(n*m) interpretations.",
     note="Trusted: Coq kernel; clingo/clasp as external semantics; renaming preserves meaning; the reading (Cnl/Preference.v: optimal_in, quantity) is the "
